@@ -268,6 +268,22 @@ func init() {
 				switch {
 				case k <= 4 && w.fileExists: // append
 					w.appendBytes(&f, 1+t.W(40), t.WBool(1, 4))
+				case k == 6 && t.WBool(1, 2):
+					// a sibling in the same directory whose name contains the followed name is created, written, removed
+					sib := []string{"x" + w.path, w.path + ".1", "old-" + w.path, w.path + "~"}[t.W(4)]
+					if _, err := os.Lstat(sib); err != nil {
+						if err := os.WriteFile(sib, []byte("not the followed file\n"), 0o644); err != nil {
+							panic(err)
+						}
+						w.opf("a sibling file %s is created and written", sib)
+						fsnotify.SimNotify(sib, fsnotify.Create)
+						fsnotify.SimNotify(sib, fsnotify.Write)
+					} else {
+						os.Remove(sib)
+						w.opf("the sibling file %s is removed", sib)
+						fsnotify.SimNotify(sib, fsnotify.Remove)
+					}
+					rc.Fired["sibling-file-event"]++
 				case k <= 6: // pause
 					// (multiples of the 250ms poll period put the writer and the poller at the same fake instant, where the scheduler
 				// decides who goes first, between any two of the poller's system calls)
